@@ -1,6 +1,9 @@
 import Fabio.Generated.C07
 import Fabio.Model.C07
-/-! Obligations over the facts regenerated from `/repo` on every run: what the C07 model silently relies on. -/
+/-! Obligations over the facts regenerated from `/repo` on every run: what the C07 model silently relies on.
+The facts are role-named events on the normalised AST (see the header of tools/factgen/c07.go): renaming locals,
+parameters or unexported helpers, extracting or inlining helpers, if/else ↔ switch and named constants do not
+change them. -/
 namespace Fabio.Props.C07Facts
 open Fabio Fabio.Generated.C07
 
@@ -25,40 +28,53 @@ theorem serve_order :
     before "noroute-return" "addHeaders" ∧ before "addHeaders" "handler-choice" ∧
     before "handler-choice" "serve" := by decide
 
-/-- the no-route branch: the bounds and the default are the model's, the branch writes the status and the
-page, ends with `return`, and calls nothing else (in particular no handler, no transport) -/
+/-- the no-route branch, as events (role-named, helper calls followed): the status comes from the configuration,
+is replaced by `http.StatusNotFound` outside the model's bounds, is written; the page is fetched and written when
+non-empty; then `return` — and nothing else happens (no handler, no transport) -/
 theorem noroute_branch :
     noRouteLo = Model.C07.noRouteLo ∧ noRouteHi = Model.C07.noRouteHi ∧ noRouteDefault = Model.C07.statusNotFound ∧
-    noRouteDefaultName = "http.StatusNotFound" ∧
-    noRouteCalls = ["w.WriteHeader", "noroute.GetHTML", "io.WriteString"] ∧ noRouteEndsWithReturn = true ∧
-    noRouteStmts = ["status := p.Config.NoRouteStatus", "if status < 100 || status > 999", "status = http.StatusNotFound", "end",
-      "w.WriteHeader(status)", "html := noroute.GetHTML()", "if html != \"\"", "io.WriteString(w, html)", "end", "return"] := by
+    noRouteEvents = ["store status = recv.Config.NoRouteStatus",
+      "status < 100 || status > 999 ⊢ store status = http.StatusNotFound",
+      "call w.WriteHeader(status)", "store html = noroute.GetHTML()",
+      "nonempty(html) ⊢ call io.WriteString(w, html)", "return"] := by
   decide
 
-/-- the statements of the URL construction the model transcribes -/
+/-- the target URL is built only past the returns of the lookup check, the no-route branch, the access check, the
+authorization check and the redirect answer -/
+theorem url_built_past_the_gates :
+    gatePrefix = ["past:!(recv.Lookup == nil)", "past:!(target == nil)", "past:!(target.AccessDeniedHTTP(req))",
+      "past:!(!target.Authorized(req, w, recv.AuthSchemes))",
+      "past:!(target.RedirectCode != 0 && target.RedirectURL != nil)"] := by decide
+
+/-- every store to the target URL, to the escaped path carried alongside, to the request's Host and to the request's
+URL, with the conditions it happens under: exactly what `Model.C07.targetURL`, `hostOverride` and the websocket
+branch transcribe -/
 theorem url_construction :
-    urlBuild = "&url.URL{ Scheme: t.URL.Scheme, Host: t.URL.Host, Path: r.URL.Path, }" ∧
-    rawPathInit = "r.URL.EscapedPath()" ∧
-    queryMergeStmts = ["if t.URL.RawQuery == \"\" || r.URL.RawQuery == \"\"", "targetURL.RawQuery = t.URL.RawQuery + r.URL.RawQuery", "end",
-      "else", "targetURL.RawQuery = t.URL.RawQuery + \"&\" + r.URL.RawQuery", "end"] ∧
-    stripStmts = ["if t.StripPath != \"\" && strings.HasPrefix(r.URL.Path, t.StripPath)", "targetURL.Path = targetURL.Path[len(t.StripPath):]",
-      "rawPath = rawPath[escapedLen(rawPath, len(t.StripPath)):]", "if !strings.HasPrefix(targetURL.Path, \"/\")",
-      "targetURL.Path = \"/\" + targetURL.Path", "rawPath = \"/\" + rawPath", "end", "end"] ∧
-    prependStmts = ["if t.PrependPath != \"\"", "targetURL.Path = t.PrependPath + targetURL.Path",
-      "rawPath = (&url.URL{Path: t.PrependPath}).EscapedPath() + rawPath", "if !strings.HasPrefix(targetURL.Path, \"/\")",
-      "targetURL.Path = \"/\" + targetURL.Path", "rawPath = \"/\" + rawPath", "end", "end"] ∧
-    rawPathSetStmts = ["if strings.HasPrefix(rawPath, \"/\")", "targetURL.RawPath = rawPath", "end"] ∧
-    hostStmts = ["if t.Host == \"dst\"", "r.Host = targetURL.Host", "end", "else", "if t.Host != \"\"", "r.Host = t.Host", "end"] := by
-  decide
+    urlEvents = [
+      "store turl = &url.URL{Scheme: target.URL.Scheme, Host: target.URL.Host, Path: req.URL.Path}",
+      "store raw = req.URL.EscapedPath()",
+      "empty(target.URL.RawQuery) || empty(req.URL.RawQuery) ⊢ store turl.RawQuery = target.URL.RawQuery + req.URL.RawQuery",
+      "!(empty(target.URL.RawQuery) || empty(req.URL.RawQuery)) ⊢ store turl.RawQuery = target.URL.RawQuery + \"&\" + req.URL.RawQuery",
+      "nonempty(target.StripPath) && strings.HasPrefix(req.URL.Path, target.StripPath) ⊢ store turl.Path = turl.Path[len(target.StripPath):]",
+      "nonempty(target.StripPath) && strings.HasPrefix(req.URL.Path, target.StripPath) ⊢ store raw = raw[helper(raw, len(target.StripPath)):]",
+      "nonempty(target.StripPath) && strings.HasPrefix(req.URL.Path, target.StripPath), !strings.HasPrefix(turl.Path, \"/\") ⊢ store turl.Path = \"/\" + turl.Path",
+      "nonempty(target.StripPath) && strings.HasPrefix(req.URL.Path, target.StripPath), !strings.HasPrefix(turl.Path, \"/\") ⊢ store raw = \"/\" + raw",
+      "nonempty(target.PrependPath) ⊢ store turl.Path = target.PrependPath + turl.Path",
+      "nonempty(target.PrependPath) ⊢ store raw = (&url.URL{Path: target.PrependPath}).EscapedPath() + raw",
+      "nonempty(target.PrependPath), !strings.HasPrefix(turl.Path, \"/\") ⊢ store turl.Path = \"/\" + turl.Path",
+      "nonempty(target.PrependPath), !strings.HasPrefix(turl.Path, \"/\") ⊢ store raw = \"/\" + raw",
+      "strings.HasPrefix(raw, \"/\") ⊢ store turl.RawPath = raw",
+      "target.Host == \"dst\" ⊢ store req.Host = turl.Host",
+      "!(target.Host == \"dst\"), nonempty(target.Host) ⊢ store req.Host = target.Host",
+      "strings.EqualFold(upgrade, \"websocket\") ⊢ store req.URL = turl"] := by
+  decide +kernel
 
-/-- the director copies exactly scheme, host, path, raw path and raw query from the target URL and writes no
-other field of the request; the websocket case replaces `r.URL` by the target URL and is chosen by
-`strings.EqualFold(upgrade, "websocket")` -/
-theorem director_and_handler :
-    directorFields = ["Scheme", "Host", "Path", "RawPath", "RawQuery"] ∧ directorCopiesSameField = true ∧
-    directorOtherWrites = [] ∧ wsReplacesURL = true ∧ wsCaseHandler = "ws" ∧
-    handlerCases = ["strings.EqualFold(upgrade, \"websocket\")", "accept == \"text/event-stream\"", "default"] := by
-  decide
+/-- the director stores exactly scheme, host, path, raw path and raw query of the target URL into the outgoing
+request's URL, unconditionally, and writes no other field of the request -/
+theorem director_stores :
+    directorStores = ["store out.URL.Scheme = turl.Scheme", "store out.URL.Host = turl.Host",
+      "store out.URL.Path = turl.Path", "store out.URL.RawPath = turl.RawPath",
+      "store out.URL.RawQuery = turl.RawQuery"] := by decide
 
 /-- `responseWriter` (the wrapper `Model.C07.RW` transcribes): `WriteHeader` passes every call on to the wrapped
 writer — the call is a top-level statement with nothing in front of it that could skip it — and records the
